@@ -1,5 +1,6 @@
 import copy
 import enum
+import re
 from typing import Tuple
 
 import valida.data
@@ -168,11 +169,13 @@ class DataPath:
 
         REPLACE = "path"
         ESC_CODE = rf"\{REPLACE}"
-        if any(isinstance(k, str) and ESC_CODE in k for k in spec):
+        # (spec keys are not case sensitive, so neither is the escape code)
+        esc_pattern = re.compile(re.escape(ESC_CODE), re.IGNORECASE)
+        if any(isinstance(k, str) and esc_pattern.search(k) for k in spec):
             # an escaped, literal mapping: return an un-escaped copy (the caller's
             # spec is left as it is)
             return {
-                (k.replace(ESC_CODE, REPLACE) if isinstance(k, str) else k): v
+                (esc_pattern.sub(lambda m: m.group()[1:], k) if isinstance(k, str) else k): v
                 for k, v in spec.items()
             }
 
